@@ -377,12 +377,12 @@ def run(ctx):
     try:
         for toks in CORPUS:
             run_case(ctx, w, d, toks, 'corpus')
-        n = ctx.n(450, 12000)
+        n = ctx.n(450, 9000)
         for _ in range(n):
             run_case(ctx, w, d, gen_blob(ctx.rng, not ctx.quick))
         regressions(ctx, w, d)
         from . import c15
-        c15.history_keys_for_c14(ctx, n=ctx.n(60, 1500))
+        c15.history_keys_for_c14(ctx, n=ctx.n(60, 1000))
     finally:
         d.close()
 
